@@ -1,12 +1,1645 @@
-//! Component `bits`: protocol runner (real code), case generator, implementation-level oracles.
-//! (stub; owned by the component's author)
+//! Component `bits`: bit-level stack / queue coders (src/symbol/mod.rs) and `ExpGolomb`
+//! (src/symbol/exp_golomb.rs): protocol runner (real code), case generator and
+//! implementation-level oracles.  Protocol: see /verif/lean/CV/Driver/Bits.lean.
 #![allow(unused)]
+use std::convert::Infallible;
+
+use constriction::backends::{BoundedReadWords, Cursor, ReadWords};
+use constriction::symbol::exp_golomb::ExpGolomb;
+use constriction::symbol::{
+    Codebook, DecoderCodebook, EncoderCodebook, QueueDecoder, QueueEncoder, ReadBitStream,
+    StackCoder, SymbolCodeError, SymbolCoder, WriteBitStream,
+};
+use constriction::{
+    BitArray, CoderError, DefaultEncoderFrontendError, Pos, Queue, Stack, UnwrapInfallible,
+};
+
 use crate::util::*;
 
-pub fn run(_segs: &[Vec<&str>]) -> String {
-    "bad-op".into()
+type EncErr<B> = CoderError<DefaultEncoderFrontendError, B>;
+type StackDec<W> = SymbolCoder<W, Stack, Cursor<W, Vec<W>>>;
+type QDec<W> = QueueDecoder<W, Cursor<W, Vec<W>>>;
+
+// ---------------------------------------------------------------------------------------
+// test codebooks (exercise the default trait methods, which go through `SmallBitStack`)
+
+/// overrides both methods: emits exactly the given bits in either form
+struct NatBook<'a>(&'a [bool]);
+/// overrides only `encode_symbol_suffix`; `encode_symbol_prefix` is the default method
+struct OnlySuffix<'a>(&'a [bool]);
+/// overrides only `encode_symbol_prefix`; `encode_symbol_suffix` is the default method
+struct OnlyPrefix<'a>(&'a [bool]);
+
+fn emit_all<E>(bits: &[bool], mut emit: impl FnMut(bool) -> Result<(), E>) -> Result<(), EncErr<E>> {
+    for &b in bits {
+        emit(b).map_err(CoderError::Backend)?;
+    }
+    Ok(())
 }
 
-pub fn gen(_rng: &mut Rng, _tier: &str, _out: &mut Vec<String>) {}
+impl Codebook for NatBook<'_> {
+    type Symbol = ();
+}
+impl EncoderCodebook for NatBook<'_> {
+    fn encode_symbol_prefix<E>(
+        &self,
+        _s: impl std::borrow::Borrow<()>,
+        emit: impl FnMut(bool) -> Result<(), E>,
+    ) -> Result<(), EncErr<E>> {
+        emit_all(self.0, emit)
+    }
+    fn encode_symbol_suffix<E>(
+        &self,
+        _s: impl std::borrow::Borrow<()>,
+        emit: impl FnMut(bool) -> Result<(), E>,
+    ) -> Result<(), EncErr<E>> {
+        emit_all(self.0, emit)
+    }
+}
+impl Codebook for OnlySuffix<'_> {
+    type Symbol = ();
+}
+impl EncoderCodebook for OnlySuffix<'_> {
+    fn encode_symbol_suffix<E>(
+        &self,
+        _s: impl std::borrow::Borrow<()>,
+        emit: impl FnMut(bool) -> Result<(), E>,
+    ) -> Result<(), EncErr<E>> {
+        emit_all(self.0, emit)
+    }
+}
+impl Codebook for OnlyPrefix<'_> {
+    type Symbol = ();
+}
+impl EncoderCodebook for OnlyPrefix<'_> {
+    fn encode_symbol_prefix<E>(
+        &self,
+        _s: impl std::borrow::Borrow<()>,
+        emit: impl FnMut(bool) -> Result<(), E>,
+    ) -> Result<(), EncErr<E>> {
+        emit_all(self.0, emit)
+    }
+}
 
-pub fn oracle(_rng: &mut Rng, _tier: &str, _rep: &mut Report) {}
+// ---------------------------------------------------------------------------------------
+// small helpers
+
+fn show_bits(l: &[bool]) -> String {
+    if l.is_empty() {
+        "-".into()
+    } else {
+        l.iter().map(|&b| if b { '1' } else { '0' }).collect()
+    }
+}
+
+fn parse_bits(s: &str) -> Option<Vec<bool>> {
+    if s == "-" {
+        return Some(vec![]);
+    }
+    s.chars()
+        .map(|c| match c {
+            '1' => Some(true),
+            '0' => Some(false),
+            _ => None,
+        })
+        .collect()
+}
+
+fn words<W: BitArray>(l: &[u128]) -> Vec<W> {
+    l.iter().map(|&w| from_u128(w)).collect()
+}
+
+fn show_words<W: BitArray>(l: &[W]) -> String {
+    show_list(l.iter().map(|&w| to_u128(w)))
+}
+
+fn show_opt_bit(b: Option<bool>) -> &'static str {
+    match b {
+        None => "none",
+        Some(true) => "1",
+        Some(false) => "0",
+    }
+}
+
+fn ok_n(n: u128) -> bool {
+    matches!(n, 8 | 16 | 32 | 64 | 128)
+}
+
+/// runs `$body` with the type alias `$N` bound to the unsigned integer with `$n` bits
+macro_rules! with_n {
+    ($n:expr, $N:ident => $body:expr) => {
+        match $n {
+            8 => {
+                type $N = u8;
+                $body
+            }
+            16 => {
+                type $N = u16;
+                $body
+            }
+            32 => {
+                type $N = u32;
+                $body
+            }
+            64 => {
+                type $N = u64;
+                $body
+            }
+            _ => {
+                type $N = u128;
+                $body
+            }
+        }
+    };
+}
+
+fn show_sym<N: num_traits::PrimInt, I>(r: Result<N, CoderError<SymbolCodeError<I>, Infallible>>) -> String {
+    match r {
+        Ok(v) => hex(to_u128(v)),
+        Err(CoderError::Frontend(SymbolCodeError::InvalidCodeword(_))) => "invalid".into(),
+        Err(CoderError::Frontend(SymbolCodeError::OutOfCompressedData)) => "out_of_data".into(),
+        Err(CoderError::Backend(e)) => match e {},
+    }
+}
+
+fn fits(n: u128, v: u128) -> bool {
+    n >= 128 || v < (1u128 << n)
+}
+
+// ---------------------------------------------------------------------------------------
+// protocol runner
+
+/// `eg`, `egs`, `nat`, `via`, `w`, `ws` on anything that can be written to
+fn write_op<S, C>(c: &mut C, is_stack: bool, seg: &[&str]) -> Option<String>
+where
+    S: constriction::Semantics,
+    C: WriteBitStream<S, WriteError = Infallible>,
+{
+    Some(match seg {
+        ["w", b] => {
+            let b = parse_hex(b)?;
+            if b > 1 {
+                return None;
+            }
+            c.write_bit(b == 1).unwrap_infallible();
+            "ok".into()
+        }
+        ["ws", bs] => {
+            for b in parse_bits(bs)? {
+                c.write_bit(b).unwrap_infallible();
+            }
+            "ok".into()
+        }
+        ["eg", n, v] => {
+            let n = parse_hex(n)?;
+            let v = parse_hex(v)?;
+            if !ok_n(n) || !fits(n, v) {
+                return None;
+            }
+            with_n!(n, N => {
+                c.encode_symbol(from_u128::<N>(v), ExpGolomb::<N>::new()).unwrap();
+            });
+            "ok".into()
+        }
+        ["egs", n, form, vs] => {
+            let n = parse_hex(n)?;
+            let form = parse_hex(form)?;
+            let vs = parse_list(vs)?;
+            if !ok_n(n) || vs.iter().any(|&v| !fits(n, v)) {
+                return None;
+            }
+            if form > 3 || (form > 1 && !is_stack) {
+                return None;
+            }
+            with_n!(n, N => {
+                let book = ExpGolomb::<N>::new();
+                let syms: Vec<N> = vs.iter().map(|&v| from_u128::<N>(v)).collect();
+                // the `_reverse` forms exist on `StackCoder` only; they are `rev()` + the plain form
+                match form {
+                    0 => c.encode_symbols(syms.iter().map(|s| (s, &book))).unwrap(),
+                    1 => c.encode_iid_symbols(syms.iter(), &book).unwrap(),
+                    2 => c.encode_symbols(syms.iter().map(|s| (s, &book)).rev()).unwrap(),
+                    _ => c.encode_iid_symbols(syms.iter().rev(), &book).unwrap(),
+                }
+            });
+            "ok".into()
+        }
+        ["nat", bs] => {
+            let bs = parse_bits(bs)?;
+            c.encode_symbol((), NatBook(&bs)).unwrap();
+            "ok".into()
+        }
+        ["via", bs] => {
+            let bs = parse_bits(bs)?;
+            if is_stack {
+                c.encode_symbol((), OnlyPrefix(&bs)).unwrap();
+            } else {
+                c.encode_symbol((), OnlySuffix(&bs)).unwrap();
+            }
+            "ok".into()
+        }
+        _ => return None,
+    })
+}
+
+/// `dg`, `dgs`, `r`, `drain` on any bit source
+fn read_op<S, C>(c: &mut C, seg: &[&str]) -> Option<String>
+where
+    S: constriction::Semantics,
+    C: ReadBitStream<S, ReadError = Infallible> + Iterator<Item = Result<bool, Infallible>>,
+{
+    Some(match seg {
+        ["r"] => show_opt_bit(c.read_bit().unwrap_infallible()).into(),
+        ["dg", n] => {
+            let n = parse_hex(n)?;
+            if !ok_n(n) {
+                return None;
+            }
+            with_n!(n, N => show_sym(c.decode_symbol(ExpGolomb::<N>::new())))
+        }
+        ["dgs", n, form, k] => {
+            let n = parse_hex(n)?;
+            let form = parse_hex(form)?;
+            let k = parse_hex(k)? as usize;
+            if !ok_n(n) || form > 1 {
+                return None;
+            }
+            with_n!(n, N => {
+                let book = ExpGolomb::<N>::new();
+                let mut out: Vec<u128> = Vec::new();
+                let mut err: Option<String> = None;
+                if form == 0 {
+                    for r in c.decode_symbols((0..k).map(|_| &book)) {
+                        match r {
+                            Ok(v) => out.push(to_u128(v)),
+                            Err(e) => { err = Some(show_sym::<N, _>(Err(e))); break; }
+                        }
+                    }
+                } else {
+                    for r in c.decode_iid_symbols(k, &book) {
+                        match r {
+                            Ok(v) => out.push(to_u128(v)),
+                            Err(e) => { err = Some(show_sym::<N, _>(Err(e))); break; }
+                        }
+                    }
+                }
+                match err {
+                    None => show_list(out),
+                    Some(e) => format!("{} {}", show_list(out), e),
+                }
+            })
+        }
+        ["drain"] => {
+            let bs: Vec<bool> = c.by_ref().map(|b| b.unwrap_infallible()).collect();
+            show_bits(&bs)
+        }
+        _ => return None,
+    })
+}
+
+fn raw_stack<W: BitArray>(c: &StackCoder<W>) -> String {
+    let (b, cw, mask) = c.verif_raw();
+    format!("{} {} {}", show_words(b), hex(to_u128(cw)), hex(to_u128(mask)))
+}
+
+fn raw_queue<W: BitArray>(c: &QueueEncoder<W>) -> String {
+    let (b, cw, mask) = c.verif_raw();
+    format!("{} {} {}", show_words(b), hex(to_u128(cw)), hex(to_u128(mask)))
+}
+
+fn raw_stack_dec<W: BitArray>(c: &StackDec<W>) -> String {
+    let (b, cw, mask) = c.verif_raw();
+    format!("{} {} {}", show_words(&b.buf()[..b.pos()]), hex(to_u128(cw)), hex(to_u128(mask)))
+}
+
+fn raw_qdec<W: BitArray>(c: &QDec<W>) -> String {
+    let (b, cw, mask) = c.verif_raw();
+    format!("{} {} {}", show_words(&b.buf()[b.pos()..]), hex(to_u128(cw)), hex(to_u128(mask)))
+}
+
+enum St<W: BitArray> {
+    Stack(StackCoder<W>),
+    StackDec(StackDec<W>),
+    QEnc(QueueEncoder<W>),
+    QDec(QDec<W>),
+    Gone,
+}
+
+fn do_op<W: BitArray>(st: &mut St<W>, seg: &[&str]) -> Option<String> {
+    match st {
+        St::Stack(c) => Some(match seg {
+            ["export"] => {
+                let v = std::mem::take(c).into_compressed().unwrap_infallible();
+                let shown = show_words(&v);
+                match StackCoder::<W>::from_compressed(v) {
+                    Ok(c2) => {
+                        *c = c2;
+                        format!("{} ok", shown)
+                    }
+                    Err(_) => format!("{} err", shown),
+                }
+            }
+            ["getc"] => {
+                let g = c.get_compressed();
+                show_words(&g)
+            }
+            ["iter"] => {
+                let bs: Vec<bool> = c.iter().map(|b| b.unwrap_infallible()).collect();
+                show_bits(&bs)
+            }
+            ["todec"] => {
+                let d = std::mem::take(c).into_decoder();
+                *st = St::StackDec(d);
+                "ok".into()
+            }
+            ["len"] => hex(c.len() as u128),
+            ["empty"] => format!("{}", SymbolCoder::is_empty(c)),
+            ["raw"] => raw_stack(c),
+            _ => match read_op::<Stack, _>(c, seg) {
+                Some(s) => s,
+                None => write_op::<Stack, _>(c, true, seg)?,
+            },
+        }),
+        St::StackDec(c) => Some(match seg {
+            ["len"] => hex(c.len() as u128),
+            ["empty"] => format!("{}", SymbolCoder::is_empty(c)),
+            ["raw"] => raw_stack_dec(c),
+            _ => read_op::<Stack, _>(c, seg)?,
+        }),
+        St::QEnc(c) => Some(match seg {
+            ["export"] => {
+                let v = std::mem::take(c).into_compressed().unwrap_infallible();
+                let shown = show_words(&v);
+                *c = QueueEncoder::<W>::from_compressed(v);
+                format!("{} ok", shown)
+            }
+            ["getc"] => {
+                let g = c.get_compressed();
+                show_words(&g)
+            }
+            ["todec"] => {
+                let d = std::mem::take(c).into_decoder().unwrap_infallible();
+                *st = St::QDec(d);
+                "ok".into()
+            }
+            ["len"] => hex(c.len() as u128),
+            ["empty"] => format!("{}", SymbolCoder::is_empty(c)),
+            ["raw"] => raw_queue(c),
+            _ => write_op::<Queue, _>(c, false, seg)?,
+        }),
+        St::QDec(d) => Some(match seg {
+            ["mexh"] => format!("{}", d.maybe_exhausted()),
+            ["clone"] => {
+                *d = d.clone();
+                "ok".into()
+            }
+            ["raw"] => raw_qdec(d),
+            _ => read_op::<Queue, _>(d, seg)?,
+        }),
+        St::Gone => None,
+    }
+}
+
+fn run_hist<W: BitArray>(is_stack: bool, segs: &[Vec<&str>]) -> String {
+    let mut st: St<W> = match segs[1].as_slice() {
+        ["new"] => {
+            if is_stack {
+                St::Stack(StackCoder::new())
+            } else {
+                St::QEnc(QueueEncoder::new())
+            }
+        }
+        ["cap", n] => {
+            let n = match parse_hex(n) {
+                Some(n) => (n as usize).min(1 << 20),
+                None => return "bad-op".into(),
+            };
+            if is_stack {
+                St::Stack(StackCoder::with_bit_capacity(n))
+            } else {
+                St::QEnc(QueueEncoder::with_bit_capacity(n))
+            }
+        }
+        ["compressed", ws] => {
+            let l = match parse_list(ws) {
+                Some(l) => l,
+                None => return "bad-op".into(),
+            };
+            if l.iter().any(|&w| !fits(W::BITS as u128, w)) {
+                return "bad-op".into();
+            }
+            if is_stack {
+                match StackCoder::<W>::from_compressed(words::<W>(&l)) {
+                    Ok(c) => St::Stack(c),
+                    Err(_) => return "err".into(),
+                }
+            } else {
+                St::QEnc(QueueEncoder::<W>::from_compressed(words::<W>(&l)))
+            }
+        }
+        ["dec", ws] => {
+            let l = match parse_list(ws) {
+                Some(l) => l,
+                None => return "bad-op".into(),
+            };
+            if is_stack || l.iter().any(|&w| !fits(W::BITS as u128, w)) {
+                return "bad-op".into();
+            }
+            use constriction::backends::IntoReadWords;
+            let cursor: Cursor<W, Vec<W>> = IntoReadWords::<W, Queue>::into_read_words(words::<W>(&l));
+            St::QDec(QueueDecoder::from_compressed(cursor))
+        }
+        _ => return "bad-op".into(),
+    };
+    let mut outs: Vec<String> = vec!["ok".into()];
+    for seg in &segs[2..] {
+        let r = guarded(|| do_op(&mut st, seg.as_slice()));
+        match r {
+            Ok(Some(s)) => outs.push(s),
+            Ok(None) => {
+                outs.push("bad-op".into());
+                break;
+            }
+            Err(class) => {
+                outs.push(class.into());
+                break;
+            }
+        }
+    }
+    outs.join(" | ")
+}
+
+// ---- sweeps -------------------------------------------------------------------------------
+
+fn pat_bits(n: u32, pat: u64) -> Vec<bool> {
+    (0..n).map(|i| pat >> i & 1 == 1).collect()
+}
+
+fn dig_list<W: BitArray>(h: u64, l: &[W]) -> u64 {
+    l.iter().fold(digest_step(h, l.len() as u128), |h, &w| digest_step(h, to_u128(w)))
+}
+
+fn dig_bits(h: u64, l: &[bool]) -> u64 {
+    l.iter().fold(digest_step(h, l.len() as u128), |h, &b| digest_step(h, b as u128))
+}
+
+fn dig_raw<W: BitArray, S: constriction::Semantics>(h: u64, c: &SymbolCoder<W, S, Vec<W>>) -> u64 {
+    let (b, cw, mask) = c.verif_raw();
+    digest_step(digest_step(dig_list(h, b), to_u128(cw)), to_u128(mask))
+}
+
+fn stack_of<W: BitArray>(bs: &[bool]) -> StackCoder<W> {
+    let mut c = StackCoder::<W>::new();
+    for &b in bs {
+        c.write_bit(b).unwrap_infallible();
+    }
+    c
+}
+
+fn queue_of<W: BitArray>(bs: &[bool]) -> QueueEncoder<W> {
+    let mut c = QueueEncoder::<W>::new();
+    for &b in bs {
+        c.write_bit(b).unwrap_infallible();
+    }
+    c
+}
+
+fn stack_case<W: BitArray>(mut h: u64, bs: &[bool]) -> u64 {
+    let mut c = stack_of::<W>(bs);
+    h = dig_raw(h, &c);
+    h = digest_step(h, c.len() as u128);
+    h = digest_step(h, c.is_empty() as u128);
+    let it: Vec<bool> = c.iter().map(|b| b.unwrap_infallible()).collect();
+    h = dig_bits(h, &it);
+    {
+        let g = c.get_compressed();
+        h = dig_list(h, &g);
+    }
+    h = dig_raw(h, &c);
+    c.write_bit(true).unwrap_infallible();
+    let b = c.read_bit().unwrap_infallible();
+    h = digest_step(h, match b { None => 2, Some(true) => 1, Some(false) => 0 });
+    h = dig_raw(h, &c);
+    // export / re-import on a fresh coder with the same content
+    let ws = stack_of::<W>(bs).into_compressed().unwrap_infallible();
+    h = dig_list(h, &ws);
+    match StackCoder::<W>::from_compressed(ws) {
+        Ok(mut c2) => {
+            h = dig_raw(h, &c2);
+            h = digest_step(h, c2.len() as u128);
+            let l: Vec<bool> = c2.by_ref().map(|b| b.unwrap_infallible()).collect();
+            h = dig_bits(h, &l);
+            dig_raw(h, &c2)
+        }
+        Err(_) => digest_step(h, 0xfffb),
+    }
+}
+
+fn queue_case<W: BitArray>(mut h: u64, bs: &[bool]) -> u64 {
+    let mut c = queue_of::<W>(bs);
+    h = dig_raw(h, &c);
+    h = digest_step(h, c.len() as u128);
+    h = digest_step(h, c.is_empty() as u128);
+    {
+        let g = c.get_compressed();
+        h = dig_list(h, &g);
+    }
+    h = dig_raw(h, &c);
+    c.write_bit(true).unwrap_infallible();
+    h = dig_raw(h, &c);
+    let ws = queue_of::<W>(bs).into_compressed().unwrap_infallible();
+    h = dig_list(h, &ws);
+    let mut c2 = QueueEncoder::<W>::from_compressed(ws);
+    h = digest_step(h, c2.len() as u128);
+    c2.write_bit(true).unwrap_infallible();
+    h = dig_raw(h, &c2);
+    let mut d = queue_of::<W>(bs).into_decoder().unwrap_infallible();
+    h = digest_step(h, d.maybe_exhausted() as u128);
+    let l: Vec<bool> = d.by_ref().map(|b| b.unwrap_infallible()).collect();
+    h = dig_bits(h, &l);
+    let (_, cw, mask) = d.verif_raw();
+    h = digest_step(h, to_u128(cw));
+    h = digest_step(h, to_u128(mask));
+    digest_step(h, d.maybe_exhausted() as u128)
+}
+
+fn sweep<W: BitArray>(is_stack: bool, n: u32) -> String {
+    let mut h = DIGEST_INIT;
+    for pat in 0..(1u64 << n) {
+        let bs = pat_bits(n, pat);
+        h = if is_stack { stack_case::<W>(h, &bs) } else { queue_case::<W>(h, &bs) };
+    }
+    format!("{} {}", hex(1u128 << n), hex(h as u128))
+}
+
+/// the codebook alone: collect the `emit` calls
+fn golomb_bits<N>(v: N) -> (Vec<bool>, Vec<bool>)
+where
+    N: num_traits::Unsigned + num_traits::PrimInt + num_traits::WrappingAdd + num_traits::WrappingSub,
+{
+    let book = ExpGolomb::<N>::new();
+    let mut p = Vec::new();
+    let mut s = Vec::new();
+    book.encode_symbol_prefix(v, |b| {
+        p.push(b);
+        Ok::<(), Infallible>(())
+    })
+    .unwrap();
+    book.encode_symbol_suffix(v, |b| {
+        s.push(b);
+        Ok::<(), Infallible>(())
+    })
+    .unwrap();
+    (p, s)
+}
+
+/// decode from a plain bit iterator; returns (result, number of bits left in the iterator)
+fn golomb_decode<N>(bits: &[bool]) -> (String, usize)
+where
+    N: num_traits::Unsigned + num_traits::PrimInt + num_traits::WrappingAdd + num_traits::WrappingSub,
+{
+    let book = ExpGolomb::<N>::new();
+    let mut it = bits.iter().map(|&b| Ok::<bool, Infallible>(b));
+    let r = book.decode_symbol(&mut it);
+    (show_sym(r), it.count())
+}
+
+fn golomb_case<N>(mut h: u64, v: N) -> u64
+where
+    N: num_traits::Unsigned + num_traits::PrimInt + num_traits::WrappingAdd + num_traits::WrappingSub,
+{
+    let (p, s) = golomb_bits(v);
+    h = dig_bits(h, &p);
+    h = dig_bits(h, &s);
+    let mut src = p.clone();
+    src.extend([true, false, true]);
+    let (r, left) = golomb_decode::<N>(&src);
+    match parse_hex(&r) {
+        Some(x) => digest_step(digest_step(h, x), left as u128),
+        None => digest_step(digest_step(h, 0xfffd), left as u128),
+    }
+}
+
+fn golomb_dec_case<N>(h: u64, bs: &[bool]) -> u64
+where
+    N: num_traits::Unsigned + num_traits::PrimInt + num_traits::WrappingAdd + num_traits::WrappingSub,
+{
+    let (r, left) = golomb_decode::<N>(bs);
+    match parse_hex(&r) {
+        Some(x) => digest_step(digest_step(h, x), left as u128),
+        None => digest_step(digest_step(h, 0xfffd), left as u128),
+    }
+}
+
+pub fn run(segs: &[Vec<&str>]) -> String {
+    let head = &segs[0];
+    match head.as_slice() {
+        [kind @ ("bits.stack" | "bits.queue"), w] if segs.len() >= 2 => {
+            let is_stack = *kind == "bits.stack";
+            match parse_hex(w) {
+                Some(8) => run_hist::<u8>(is_stack, segs),
+                Some(16) => run_hist::<u16>(is_stack, segs),
+                Some(32) => run_hist::<u32>(is_stack, segs),
+                Some(64) => run_hist::<u64>(is_stack, segs),
+                Some(_) => "unsupported".into(),
+                None => "bad-op".into(),
+            }
+        }
+        [kind @ ("bits.stacksweep" | "bits.queuesweep"), w, n] if segs.len() == 1 => {
+            let is_stack = *kind == "bits.stacksweep";
+            match (parse_hex(w), parse_hex(n)) {
+                (Some(w), Some(n)) => {
+                    if n > 24 {
+                        return "unsupported".into();
+                    }
+                    let n = n as u32;
+                    match w {
+                        8 => sweep::<u8>(is_stack, n),
+                        16 => sweep::<u16>(is_stack, n),
+                        32 => sweep::<u32>(is_stack, n),
+                        64 => sweep::<u64>(is_stack, n),
+                        _ => "unsupported".into(),
+                    }
+                }
+                _ => "bad-op".into(),
+            }
+        }
+        ["bits.golomb", n, v] if segs.len() == 1 => match (parse_hex(n), parse_hex(v)) {
+            (Some(n), Some(v)) => {
+                if !ok_n(n) || !fits(n, v) {
+                    return "unsupported".into();
+                }
+                let (p, s) = with_n!(n, N => golomb_bits::<N>(from_u128::<N>(v)));
+                format!("{} {}", show_bits(&p), show_bits(&s))
+            }
+            _ => "bad-op".into(),
+        },
+        ["bits.golombdec", n, bs] if segs.len() == 1 => match (parse_hex(n), parse_bits(bs)) {
+            (Some(n), Some(bs)) => {
+                if !ok_n(n) {
+                    return "unsupported".into();
+                }
+                let (r, left) = with_n!(n, N => golomb_decode::<N>(&bs));
+                format!("{} {}", r, hex(left as u128))
+            }
+            _ => "bad-op".into(),
+        },
+        ["bits.golombsweep", n, lo, hi] if segs.len() == 1 => {
+            match (parse_hex(n), parse_hex(lo), parse_hex(hi)) {
+                (Some(n), Some(lo), Some(hi)) => {
+                    if !ok_n(n) || !fits(n, hi) || hi < lo {
+                        return "unsupported".into();
+                    }
+                    let mut h = DIGEST_INIT;
+                    with_n!(n, N => {
+                        let mut v = lo;
+                        loop {
+                            h = golomb_case::<N>(h, from_u128::<N>(v));
+                            if v == hi { break; }
+                            v += 1;
+                        }
+                    });
+                    format!("{} {}", hex(hi - lo + 1), hex(h as u128))
+                }
+                _ => "bad-op".into(),
+            }
+        }
+        ["bits.golombdecsweep", n, l] if segs.len() == 1 => match (parse_hex(n), parse_hex(l)) {
+            (Some(n), Some(l)) => {
+                if !ok_n(n) || l > 24 {
+                    return "unsupported".into();
+                }
+                let mut h = DIGEST_INIT;
+                for pat in 0..(1u64 << l) {
+                    let bs = pat_bits(l as u32, pat);
+                    h = with_n!(n, N => golomb_dec_case::<N>(h, &bs));
+                }
+                format!("{} {}", hex(1u128 << l), hex(h as u128))
+            }
+            _ => "bad-op".into(),
+        },
+        _ => "bad-op".into(),
+    }
+}
+
+// ---------------------------------------------------------------------------------------
+// generation
+
+fn rand_bits(rng: &mut Rng, n: usize) -> Vec<bool> {
+    match rng.next() % 6 {
+        0 => vec![false; n],
+        1 => vec![true; n],
+        2 => {
+            // zeros with a single one (terminator look-alikes)
+            let mut v = vec![false; n];
+            if n > 0 {
+                let i = rng.below(n as u128) as usize;
+                v[i] = true;
+            }
+            v
+        }
+        _ => (0..n).map(|_| rng.chance(1, 2)).collect(),
+    }
+}
+
+const WS: [u32; 4] = [8, 16, 32, 64];
+const NS: [u32; 5] = [8, 16, 32, 64, 128];
+
+fn max_of(n: u32) -> u128 {
+    if n >= 128 {
+        u128::MAX
+    } else {
+        (1u128 << n) - 1
+    }
+}
+
+/// a symbol for `ExpGolomb<N>`: small values, powers of two ± 1, the top of the range
+fn gen_sym(rng: &mut Rng, n: u32) -> u128 {
+    let max = max_of(n);
+    match rng.next() % 8 {
+        0 => rng.below(8),
+        1 => max - rng.below(3),
+        2 | 3 => {
+            let k = rng.below(n as u128) as u32;
+            ((1u128 << k).wrapping_add(rng.below(3)).wrapping_sub(2)) & max
+        }
+        4 => rng.below(300) & max,
+        _ => rng.bits_biased(n),
+    }
+}
+
+fn gen_write_op(rng: &mut Rng, w: u32, is_stack: bool, pending: &mut Vec<u32>) -> String {
+    match rng.next() % 16 {
+        0..=3 => format!("w {}", rng.next() % 2),
+        4..=7 => {
+            let n = match rng.next() % 4 {
+                0 => rng.below(4) as usize,
+                1 => (w as usize).saturating_sub(2) + rng.below(5) as usize,
+                2 => (2 * w as usize).saturating_sub(2) + rng.below(5) as usize,
+                _ => rng.below(w as u128 + 3) as usize,
+            };
+            format!("ws {}", show_bits(&rand_bits(rng, n)))
+        }
+        8..=11 => {
+            let n = *rng.pick(&NS);
+            pending.push(n);
+            format!("eg {:x} {:x}", n, gen_sym(rng, n))
+        }
+        12 => {
+            let n = *rng.pick(&NS);
+            let k = rng.below(4) as usize;
+            let form = if is_stack { rng.below(4) } else { rng.below(2) };
+            for _ in 0..k {
+                pending.push(n);
+            }
+            let vs: Vec<u128> = (0..k).map(|_| gen_sym(rng, n)).collect();
+            format!("egs {:x} {:x} {}", n, form, show_list(vs))
+        }
+        13 => {
+            let n = rng.below(12) as usize;
+            format!("nat {}", show_bits(&rand_bits(rng, n)))
+        }
+        _ => {
+            // `via`: through SmallBitStack (usize words): sometimes longer than 64 / 128 bits
+            let n = match rng.next() % 6 {
+                0 => 62 + rng.below(5) as usize,
+                1 => 126 + rng.below(5) as usize,
+                _ => rng.below(20) as usize,
+            };
+            format!("via {}", show_bits(&rand_bits(rng, n)))
+        }
+    }
+}
+
+fn gen_read_op(rng: &mut Rng, pending: &mut Vec<u32>) -> String {
+    match rng.next() % 12 {
+        0..=4 => "r".into(),
+        5..=8 => {
+            // mostly decode with the width that was encoded last (valid), sometimes another one
+            let n = if rng.chance(3, 4) { pending.pop().unwrap_or(*rng.pick(&NS)) } else { *rng.pick(&NS) };
+            format!("dg {:x}", n)
+        }
+        9 => {
+            let n = pending.last().copied().unwrap_or(*rng.pick(&NS));
+            format!("dgs {:x} {:x} {:x}", n, rng.below(2), rng.below(4))
+        }
+        _ => "r".into(),
+    }
+}
+
+fn gen_inspect_op(rng: &mut Rng, is_stack: bool) -> String {
+    let ops: &[&str] = if is_stack {
+        &["len", "empty", "raw", "getc", "iter", "export", "len", "raw"]
+    } else {
+        &["len", "empty", "raw", "getc", "export", "len", "raw", "getc"]
+    };
+    (*rng.pick(ops)).into()
+}
+
+fn gen_init(rng: &mut Rng, w: u32, is_stack: bool) -> String {
+    match rng.next() % 8 {
+        0..=3 => "new".into(),
+        4 => format!("cap {:x}", rng.below(200)),
+        _ => {
+            let n = rng.below(5) as usize;
+            let mut ws: Vec<u128> = (0..n).map(|_| rng.bits_biased(w)).collect();
+            if is_stack {
+                if let Some(l) = ws.last_mut() {
+                    // mostly valid (non-zero last word); 1 in 8 keeps a zero last word -> `err`
+                    if *l == 0 && rng.chance(7, 8) {
+                        *l = 1 + rng.below(max_of(w));
+                    }
+                }
+            }
+            format!("compressed {}", show_list(ws))
+        }
+    }
+}
+
+fn gen_stack_history(rng: &mut Rng, w: u32, maxlen: usize) -> String {
+    let mut line = format!("bits.stack {:x} | {}", w, gen_init(rng, w, true));
+    let n = rng.next() as usize % (maxlen + 1);
+    let mut pending: Vec<u32> = Vec::new();
+    // phases: bias towards writing or towards reading so that the coder both grows over
+    // several words and runs empty
+    let mut write_bias = 10;
+    for i in 0..n {
+        if i % 6 == 0 {
+            write_bias = *rng.pick(&[3u64, 8, 12, 14]);
+        }
+        let r = rng.next() % 20;
+        let op = if r < write_bias {
+            gen_write_op(rng, w, true, &mut pending)
+        } else if r < 17 {
+            gen_read_op(rng, &mut pending)
+        } else {
+            gen_inspect_op(rng, true)
+        };
+        line.push_str(" | ");
+        line.push_str(&op);
+    }
+    match rng.next() % 4 {
+        0 => line.push_str(" | todec | len | raw | drain | r | len | empty | raw"),
+        1 => line.push_str(" | raw | len | drain | raw | r | empty"),
+        _ => line.push_str(" | raw | len | empty | export | raw | len | iter"),
+    }
+    line
+}
+
+fn gen_queue_history(rng: &mut Rng, w: u32, maxlen: usize) -> String {
+    let mut line = format!("bits.queue {:x} | {}", w, gen_init(rng, w, false));
+    let n = rng.next() as usize % (maxlen + 1);
+    let mut pending: Vec<u32> = Vec::new();
+    for _ in 0..n {
+        let r = rng.next() % 20;
+        let op = if r < 15 { gen_write_op(rng, w, false, &mut pending) } else { gen_inspect_op(rng, false) };
+        line.push_str(" | ");
+        line.push_str(&op);
+    }
+    line.push_str(" | raw | len | empty | todec | raw | mexh");
+    // decode in FIFO order what was encoded, interleaved with stray reads
+    let m = rng.next() as usize % (maxlen + 1);
+    pending.reverse();
+    for _ in 0..m {
+        let op = match rng.next() % 10 {
+            0 => "mexh".to_string(),
+            1 => "clone".to_string(),
+            2 => "raw".to_string(),
+            _ => gen_read_op(rng, &mut pending),
+        };
+        line.push_str(" | ");
+        line.push_str(&op);
+    }
+    line.push_str(" | mexh | raw | drain | mexh | r | raw");
+    line
+}
+
+/// every fill level `k` of the coder: export / guard / re-import / drain
+fn gen_fill_levels(rng: &mut Rng, w: u32, reps: usize, out: &mut Vec<String>) {
+    for k in 0..=(2 * w as usize + 2) {
+        for _ in 0..reps {
+            let bs = show_bits(&rand_bits(rng, k));
+            out.push(format!(
+                "bits.stack {:x} | new | ws {} | raw | len | empty | iter | getc | raw | len | w 1 | r | export | raw | len | drain | raw | export",
+                w, bs
+            ));
+            out.push(format!(
+                "bits.queue {:x} | new | ws {} | raw | len | empty | getc | raw | len | export | raw | len | w 1 | raw | todec | mexh | drain | mexh",
+                w, bs
+            ));
+        }
+    }
+}
+
+/// truncated / over-long / malformed codewords for `ExpGolomb<N>`
+fn gen_golomb_dec(rng: &mut Rng, n: u32, out: &mut Vec<String>) {
+    let nn = n as usize;
+    let mut push = |bs: Vec<bool>| out.push(format!("bits.golombdec {:x} {}", n, show_bits(&bs)));
+    for zeros in [0usize, 1, nn - 1, nn, nn + 1, nn + 2, 2 * nn + 3] {
+        // only zeros: the source ends while counting
+        push(vec![false; zeros]);
+        // zeros, the separator, then 0 .. zeros+1 payload bits of several kinds
+        for payload in [0usize, 1, zeros.saturating_sub(1), zeros, zeros + 1] {
+            for kind in 0..3 {
+                let mut bs = vec![false; zeros];
+                bs.push(true);
+                for i in 0..payload {
+                    bs.push(match kind {
+                        0 => false,
+                        1 => true,
+                        _ => i + 1 == payload,
+                    });
+                }
+                push(bs);
+            }
+        }
+    }
+    for _ in 0..20 {
+        let k = rng.below(2 * n as u128 + 4) as usize;
+        push(rand_bits(rng, k));
+    }
+}
+
+fn boundary_syms(n: u32) -> Vec<u128> {
+    let max = max_of(n);
+    let mut v = vec![0u128, 1, 2, 3, max, max - 1, max - 2, max / 2, max / 2 + 1];
+    for k in 1..n {
+        let p = 1u128 << k;
+        v.extend([p - 2, p - 1, p]);
+    }
+    v.sort();
+    v.dedup();
+    v
+}
+
+pub fn gen(rng: &mut Rng, tier: &str, out: &mut Vec<String>) {
+    let thorough = tier == "thorough";
+    // 1. complete sweeps at u8: every bit string of length n (all reachable (current_word, mask),
+    //    every fill level 0..=2W+1 and beyond)
+    let max_sweep = if thorough { 19 } else { 13 };
+    for n in 0..=max_sweep {
+        out.push(format!("bits.stacksweep 8 {:x}", n));
+        out.push(format!("bits.queuesweep 8 {:x}", n));
+    }
+    // wider words: complete sweeps of short strings (fill levels 0..n of the first word)
+    for w in [16u32, 32, 64] {
+        for n in [0u32, 1, 2, 7, if thorough { 14 } else { 10 }] {
+            out.push(format!("bits.stacksweep {:x} {:x}", w, n));
+            out.push(format!("bits.queuesweep {:x} {:x}", w, n));
+        }
+    }
+    if thorough {
+        out.push("bits.stacksweep 10 12".to_string()); // u16, 18 bits: crosses the first word
+        out.push("bits.queuesweep 10 12".to_string());
+    }
+    // 2. every fill level at every width, random patterns
+    for w in WS {
+        gen_fill_levels(rng, w, if thorough { 12 } else { 2 }, out);
+    }
+    // 3. random interleavings
+    let per = if thorough { 6000 } else { 300 };
+    for w in WS {
+        for _ in 0..per {
+            out.push(gen_stack_history(rng, w, 40));
+            out.push(gen_queue_history(rng, w, 30));
+        }
+    }
+    // 4. Exp-Golomb: all u8 / u16 symbols, boundary symbols of the wide types, malformed input
+    out.push("bits.golombsweep 8 0 ff".to_string());
+    for chunk in 0..16u32 {
+        out.push(format!("bits.golombsweep 10 {:x} {:x}", chunk * 0x1000, chunk * 0x1000 + 0xfff));
+    }
+    for n in NS {
+        for v in boundary_syms(n) {
+            out.push(format!("bits.golomb {:x} {:x}", n, v));
+        }
+        let extra = if thorough { 2000 } else { 60 };
+        for _ in 0..extra {
+            out.push(format!("bits.golomb {:x} {:x}", n, gen_sym(rng, n)));
+        }
+        gen_golomb_dec(rng, n, out);
+    }
+    for l in 0..=(if thorough { 20 } else { 14 }) {
+        out.push(format!("bits.golombdecsweep 8 {:x}", l));
+    }
+    for l in [0u32, 1, 5, if thorough { 18 } else { 12 }] {
+        out.push(format!("bits.golombdecsweep 10 {:x}", l));
+        out.push(format!("bits.golombdecsweep 20 {:x}", l));
+    }
+    // 5. malformed / glue
+    out.push("bits.stack 8 | compressed 0".to_string());
+    out.push("bits.stack 8 | compressed 5,0".to_string());
+    out.push("bits.stack 8 | compressed - | r | len | empty | export | raw".to_string());
+    out.push("bits.queue 8 | dec - | r | mexh | dg 8 | drain".to_string());
+    out.push("bits.stack 8 | new | r | r | dg 8 | dg 80 | len | getc | raw | iter | drain".to_string());
+    out.push("bits.stack 8 | new | frobnicate".to_string());
+    out.push("bits.stack 7 | new".to_string());
+    for w in WS {
+        for _ in 0..(if thorough { 400 } else { 40 }) {
+            // arbitrary words as a queue decoder's input: decode garbage
+            let n = rng.below(6) as usize;
+            let ws: Vec<u128> = (0..n).map(|_| rng.bits_biased(w)).collect();
+            let mut line = format!("bits.queue {:x} | dec {}", w, show_list(ws));
+            for _ in 0..rng.below(8) {
+                let mut none = Vec::new();
+                line.push_str(" | ");
+                line.push_str(&gen_read_op(rng, &mut none));
+            }
+            line.push_str(" | raw | mexh | drain");
+            out.push(line);
+        }
+    }
+}
+
+// ---------------------------------------------------------------------------------------
+// implementation-level oracles (no reference to the Lean model)
+
+/// textbook Exp-Golomb codeword of `v` for an `n`-bit symbol type, written independently of the
+/// crate: `k` zeros followed by the `k+1` binary digits of `v + 1` (most significant first),
+/// where `v + 1` is computed without wrap-around (bignum as a bit vector).
+fn ref_codeword(n: u32, v: u128) -> Vec<bool> {
+    // digits of v + 1, least significant first, n + 1 digits
+    let mut digits: Vec<bool> = (0..n).map(|i| v >> i & 1 == 1).collect();
+    digits.push(false);
+    for d in digits.iter_mut() {
+        if *d {
+            *d = false;
+        } else {
+            *d = true;
+            break;
+        }
+    }
+    while digits.last() == Some(&false) {
+        digits.pop();
+    }
+    let k = digits.len() - 1;
+    let mut cw = vec![false; k];
+    cw.extend(digits.iter().rev());
+    cw
+}
+
+#[derive(Clone, Debug)]
+enum Item {
+    Bit(bool),
+    Sym(u32, u128, usize),
+}
+
+fn oracle_stack<W: BitArray>(rng: &mut Rng, iters: usize, rep: &mut Report) {
+    let w = W::BITS as u32;
+    for _ in 0..iters {
+        let mut coder = StackCoder::<W>::new();
+        let mut twin = StackCoder::<W>::new(); // never inspected, never re-imported (C08)
+        let mut ghost: Vec<bool> = Vec::new();
+        let mut items: Vec<Item> = Vec::new();
+        let mut desc = format!("bits.stack {:x} | new", w);
+        let steps = rng.next() % 60;
+        let mut write_bias = 10;
+        let mut failed = false;
+        for i in 0..steps {
+            if i % 8 == 0 {
+                write_bias = *rng.pick(&[4u64, 9, 13]);
+            }
+            let r = rng.next() % 20;
+            if r < write_bias {
+                if rng.chance(1, 2) {
+                    let n = match rng.next() % 3 {
+                        0 => 1,
+                        1 => rng.below(w as u128 + 3) as usize,
+                        _ => rng.below(4) as usize,
+                    };
+                    let bs = rand_bits(rng, n);
+                    desc.push_str(&format!(" | ws {}", show_bits(&bs)));
+                    for &b in &bs {
+                        coder.write_bit(b).unwrap_infallible();
+                        twin.write_bit(b).unwrap_infallible();
+                        ghost.push(b);
+                        items.push(Item::Bit(b));
+                    }
+                } else {
+                    let n = *rng.pick(&NS);
+                    let v = gen_sym(rng, n);
+                    desc.push_str(&format!(" | eg {:x} {:x}", n, v));
+                    with_n!(n, N => {
+                        coder.encode_symbol(from_u128::<N>(v), ExpGolomb::<N>::new()).unwrap();
+                        twin.encode_symbol(from_u128::<N>(v), ExpGolomb::<N>::new()).unwrap();
+                    });
+                    let cw = ref_codeword(n, v);
+                    ghost.extend(cw.iter().rev());
+                    items.push(Item::Sym(n, v, cw.len()));
+                    rep.count(&format!("C16.eg.N{}", n));
+                    if v == max_of(n) {
+                        rep.count("C16.eg.max");
+                    }
+                }
+            } else if r < 16 {
+                match items.last().cloned() {
+                    Some(Item::Sym(n, v, k)) => {
+                        desc.push_str(&format!(" | dg {:x}", n));
+                        let got = with_n!(n, N => show_sym(coder.decode_symbol(ExpGolomb::<N>::new())));
+                        let _ = with_n!(n, N => show_sym(twin.decode_symbol(ExpGolomb::<N>::new())));
+                        rep.eval("C16");
+                        items.pop();
+                        ghost.truncate(ghost.len() - k);
+                        if got != hex(v) {
+                            rep.fail("C16", format!("{} => decoded {} expected {:x}", desc, got, v));
+                            failed = true;
+                            break;
+                        }
+                    }
+                    _ => {
+                        desc.push_str(" | r");
+                        let got = coder.read_bit().unwrap_infallible();
+                        let _ = twin.read_bit().unwrap_infallible();
+                        rep.eval("C16");
+                        let exp = ghost.pop();
+                        items.pop();
+                        if exp.is_none() {
+                            rep.count("C16.read_from_empty");
+                        }
+                        if got != exp {
+                            rep.fail("C16", format!("{} => read {:?} expected {:?}", desc, got, exp));
+                            failed = true;
+                            break;
+                        }
+                    }
+                }
+            } else if r == 16 {
+                // export -> re-import must preserve content (C16), at whatever fill level we are
+                desc.push_str(" | export");
+                let v = std::mem::take(&mut coder).into_compressed().unwrap_infallible();
+                rep.eval("C16");
+                rep.eval("C18");
+                rep.count(&format!("C16.export.fill{}", ghost.len() % w as usize));
+                let expect_words = ghost.len() / w as usize + 1;
+                if v.len() != expect_words {
+                    rep.fail("C18", format!("{} => {} words exported for {} bits", desc, v.len(), ghost.len()));
+                    failed = true;
+                    break;
+                }
+                match StackCoder::<W>::from_compressed(v) {
+                    Ok(c) => coder = c,
+                    Err(_) => {
+                        rep.fail("C16", format!("{} => re-import of own export rejected", desc));
+                        failed = true;
+                        break;
+                    }
+                }
+            } else {
+                // inspections: must not change anything observable (C08) and must agree with the
+                // ghost (C16 exact len, C18)
+                let kind = rng.next() % 5;
+                rep.eval("C08");
+                match kind {
+                    0 => {
+                        desc.push_str(" | getc");
+                        let g = coder.get_compressed();
+                        let view: Vec<W> = g.to_vec();
+                        drop(g);
+                        rep.eval("C18");
+                        // the view must be what finishing now would give
+                        let mut fresh = StackCoder::<W>::new();
+                        for &b in &ghost {
+                            fresh.write_bit(b).unwrap_infallible();
+                        }
+                        let exp = fresh.into_compressed().unwrap_infallible();
+                        if view != exp {
+                            rep.fail("C08", format!("{} => guard shows {} but a coder with the same bits exports {}", desc, show_words(&view), show_words(&exp)));
+                            failed = true;
+                            break;
+                        }
+                        if coder.len() != ghost.len() || coder.len() / w as usize + 1 != view.len() {
+                            rep.fail("C18", format!("{} | len => len {} / {} words in the view / {} bits written", desc, coder.len(), view.len(), ghost.len()));
+                            failed = true;
+                            break;
+                        }
+                    }
+                    1 => {
+                        desc.push_str(" | iter");
+                        let bs: Vec<bool> = coder.iter().map(|b| b.unwrap_infallible()).collect();
+                        let exp: Vec<bool> = ghost.iter().rev().copied().collect();
+                        if bs != exp {
+                            rep.fail("C08", format!("{} => iter yields {} expected {}", desc, show_bits(&bs), show_bits(&exp)));
+                            failed = true;
+                            break;
+                        }
+                    }
+                    2 => {
+                        desc.push_str(" | len");
+                        rep.eval("C16");
+                        rep.eval("C18");
+                        if coder.len() != ghost.len() {
+                            rep.fail("C16", format!("{} => {:x} expected {:x}", desc, coder.len(), ghost.len()));
+                            failed = true;
+                            break;
+                        }
+                    }
+                    3 => {
+                        desc.push_str(" | empty");
+                        rep.eval("C18");
+                        if coder.is_empty() != ghost.is_empty() {
+                            rep.fail("C18", format!("{} => {} but {} bits are on the stack", desc, coder.is_empty(), ghost.len()));
+                            failed = true;
+                            break;
+                        }
+                    }
+                    _ => {
+                        desc.push_str(" | iter (as_decoder, len)");
+                        let d = coder.as_decoder();
+                        if d.len() != ghost.len() {
+                            rep.fail("C18", format!("{} => as_decoder().len() = {} expected {}", desc, d.len(), ghost.len()));
+                            failed = true;
+                            break;
+                        }
+                    }
+                }
+            }
+        }
+        if failed {
+            continue;
+        }
+        // final: both coders must hold the same bits = the ghost (C08 twin run, C16 LIFO)
+        rep.eval("C08");
+        rep.eval("C16");
+        let a: Vec<bool> = coder.by_ref().map(|b| b.unwrap_infallible()).collect();
+        let b: Vec<bool> = twin.by_ref().map(|b| b.unwrap_infallible()).collect();
+        let exp: Vec<bool> = ghost.iter().rev().copied().collect();
+        if a != exp {
+            rep.fail("C16", format!("{} | drain => {} expected {}", desc, show_bits(&a), show_bits(&exp)));
+        }
+        if a != b {
+            rep.fail("C08", format!("{} | drain => inspected coder holds {} but the uninspected twin {}", desc, show_bits(&a), show_bits(&b)));
+        }
+        if !coder.is_empty() || coder.len() != 0 {
+            rep.fail("C18", format!("{} | drain | len | empty => not empty after draining", desc));
+        }
+        rep.sample("C16", || desc.clone());
+        rep.sample("C08", || desc.clone());
+        rep.count(&format!("C16.stack.hist.W{}", w));
+    }
+}
+
+fn oracle_queue<W: BitArray>(rng: &mut Rng, iters: usize, rep: &mut Report) {
+    let w = W::BITS as usize;
+    for _ in 0..iters {
+        let mut coder = QueueEncoder::<W>::new();
+        let mut twin = QueueEncoder::<W>::new();
+        let mut ghost: Vec<bool> = Vec::new();
+        let mut items: Vec<Item> = Vec::new();
+        let mut desc = format!("bits.queue {:x} | new", w);
+        let steps = rng.next() % 40;
+        let mut failed = false;
+        for _ in 0..steps {
+            let r = rng.next() % 20;
+            if r < 8 {
+                let n = match rng.next() % 3 {
+                    0 => 1,
+                    1 => rng.below(w as u128 + 3) as usize,
+                    _ => rng.below(4) as usize,
+                };
+                let bs = rand_bits(rng, n);
+                desc.push_str(&format!(" | ws {}", show_bits(&bs)));
+                for &b in &bs {
+                    coder.write_bit(b).unwrap_infallible();
+                    twin.write_bit(b).unwrap_infallible();
+                    ghost.push(b);
+                    items.push(Item::Bit(b));
+                }
+            } else if r < 15 {
+                let n = *rng.pick(&NS);
+                let v = gen_sym(rng, n);
+                desc.push_str(&format!(" | eg {:x} {:x}", n, v));
+                with_n!(n, N => {
+                    coder.encode_symbol(from_u128::<N>(v), ExpGolomb::<N>::new()).unwrap();
+                    twin.encode_symbol(from_u128::<N>(v), ExpGolomb::<N>::new()).unwrap();
+                });
+                let cw = ref_codeword(n, v);
+                ghost.extend(cw.iter());
+                items.push(Item::Sym(n, v, cw.len()));
+                if v == max_of(n) {
+                    rep.count("C16.queue.eg.max");
+                }
+            } else if r == 15 {
+                // export and continue on the exported words (padding becomes part of the content)
+                desc.push_str(" | export");
+                let v = std::mem::take(&mut coder).into_compressed().unwrap_infallible();
+                let tv = std::mem::take(&mut twin).into_compressed().unwrap_infallible();
+                rep.eval("C18");
+                if v.len() != ghost.len().div_ceil(w) {
+                    rep.fail("C18", format!("{} => {} words exported for {} bits", desc, v.len(), ghost.len()));
+                    failed = true;
+                    break;
+                }
+                while ghost.len() % w != 0 {
+                    ghost.push(false);
+                    items.push(Item::Bit(false));
+                }
+                coder = QueueEncoder::from_compressed(v);
+                twin = QueueEncoder::from_compressed(tv);
+            } else {
+                rep.eval("C08");
+                match rng.next() % 3 {
+                    0 => {
+                        desc.push_str(" | getc");
+                        let g = coder.get_compressed();
+                        let view: Vec<W> = g.to_vec();
+                        drop(g);
+                        rep.eval("C18");
+                        let mut fresh = QueueEncoder::<W>::new();
+                        for &b in &ghost {
+                            fresh.write_bit(b).unwrap_infallible();
+                        }
+                        let exp = fresh.into_compressed().unwrap_infallible();
+                        if view != exp {
+                            rep.fail("C08", format!("{} => guard shows {} but a coder with the same bits exports {}", desc, show_words(&view), show_words(&exp)));
+                            failed = true;
+                            break;
+                        }
+                        if view.is_empty() != coder.is_empty() || view.len() != coder.len().div_ceil(w) {
+                            rep.fail("C18", format!("{} | len | empty => len {} is_empty {} but the view has {} words", desc, coder.len(), coder.is_empty(), view.len()));
+                            failed = true;
+                            break;
+                        }
+                    }
+                    1 => {
+                        desc.push_str(" | len");
+                        rep.eval("C16");
+                        rep.eval("C18");
+                        if coder.len() != ghost.len() {
+                            rep.fail("C16", format!("{} => {:x} expected {:x}", desc, coder.len(), ghost.len()));
+                            failed = true;
+                            break;
+                        }
+                    }
+                    _ => {
+                        desc.push_str(" | empty");
+                        rep.eval("C18");
+                        if coder.is_empty() != ghost.is_empty() {
+                            rep.fail("C18", format!("{} => {} but {} bits were written", desc, coder.is_empty(), ghost.len()));
+                            failed = true;
+                            break;
+                        }
+                    }
+                }
+            }
+        }
+        if failed {
+            continue;
+        }
+        desc.push_str(" | todec");
+        let mut dec = coder.into_decoder().unwrap_infallible();
+        let mut tdec = twin.into_decoder().unwrap_infallible();
+        // FIFO: items come back in the order written; symbols via decode_symbol, bits via read_bit
+        let mut pos = 0usize;
+        for it in &items {
+            rep.eval("C16");
+            match *it {
+                Item::Bit(b) => {
+                    desc.push_str(" | r");
+                    let got = dec.read_bit().unwrap_infallible();
+                    let tgot = tdec.read_bit().unwrap_infallible();
+                    if rng.chance(1, 6) {
+                        rep.eval("C08");
+                        dec = dec.clone();
+                        let _ = dec.maybe_exhausted();
+                    }
+                    if got != Some(b) || tgot != got {
+                        rep.fail("C16", format!("{} => read {:?} (twin {:?}) expected {}", desc, got, tgot, b));
+                        failed = true;
+                        break;
+                    }
+                    pos += 1;
+                }
+                Item::Sym(n, v, k) => {
+                    desc.push_str(&format!(" | dg {:x}", n));
+                    let got = with_n!(n, N => show_sym(dec.decode_symbol(ExpGolomb::<N>::new())));
+                    let tgot = with_n!(n, N => show_sym(tdec.decode_symbol(ExpGolomb::<N>::new())));
+                    if got != hex(v) || tgot != got {
+                        rep.fail("C16", format!("{} => decoded {} (twin {}) expected {:x}", desc, got, tgot, v));
+                        failed = true;
+                        break;
+                    }
+                    pos += k;
+                }
+            }
+        }
+        if failed {
+            continue;
+        }
+        // what is left is zero padding up to the next word boundary, then the end
+        rep.eval("C16");
+        let restv: Vec<bool> = dec.by_ref().map(|b| b.unwrap_infallible()).collect();
+        let pad = (w - ghost.len() % w) % w;
+        if restv.len() != pad || restv.iter().any(|&b| b) || pos != ghost.len() {
+            rep.fail("C16", format!("{} | drain => {} expected {} zero bits of padding", desc, show_bits(&restv), pad));
+        }
+        if !dec.maybe_exhausted() {
+            rep.fail("C18", format!("{} | drain | mexh => false after reading everything", desc));
+        }
+        rep.sample("C16", || desc.clone());
+        rep.count(&format!("C16.queue.hist.W{}", w));
+    }
+}
+
+/// export -> re-import at every fill level and every bit pattern (exhaustive for short strings)
+fn oracle_export_exhaustive<W: BitArray>(max_n: u32, rep: &mut Report) {
+    let w = W::BITS;
+    for n in 0..=max_n {
+        for pat in 0..(1u64 << n) {
+            let bs = pat_bits(n, pat);
+            let v = stack_of::<W>(&bs).into_compressed().unwrap_infallible();
+            rep.eval("C16");
+            rep.eval("C18");
+            let nwords = v.len();
+            let last = v.last().copied();
+            let shown = show_words(&v);
+            let replay = || format!("bits.stack {:x} | new | ws {} | export | len | drain", w, show_bits(&bs));
+            match StackCoder::<W>::from_compressed(v) {
+                Ok(mut c) => {
+                    let l = c.len();
+                    let mut back: Vec<bool> = c.by_ref().map(|b| b.unwrap_infallible()).collect();
+                    back.reverse();
+                    if l != bs.len() || back != bs {
+                        rep.fail("C16", format!("{} => exported {} re-imported len {:x} bits {}", replay(), shown, l, show_bits(&back)));
+                    }
+                }
+                Err(_) => rep.fail("C16", format!("{} => exported {} rejected on re-import", replay(), shown)),
+            }
+            if nwords != bs.len() / w + 1 || last == Some(W::zero()) {
+                rep.fail("C18", format!("{} => exported {} for {} bits", replay(), shown, bs.len()));
+            }
+            // queue: export is the zero padded bit string; decoder yields the bits first
+            rep.eval("C16");
+            let mut d = queue_of::<W>(&bs).into_decoder().unwrap_infallible();
+            let all: Vec<bool> = d.by_ref().map(|b| b.unwrap_infallible()).collect();
+            let mut exp = bs.clone();
+            while exp.len() % w != 0 {
+                exp.push(false);
+            }
+            if all != exp {
+                rep.fail("C16", format!("bits.queue {:x} | new | ws {} | todec | drain => {} expected {}", w, show_bits(&bs), show_bits(&all), show_bits(&exp)));
+            }
+        }
+        rep.count(&format!("C16.export.exhaustive.W{}.len{}", w, n));
+    }
+}
+
+fn oracle_export_random<W: BitArray>(rng: &mut Rng, reps: usize, rep: &mut Report) {
+    let w = W::BITS;
+    for k in 0..=(2 * w + 2) {
+        for _ in 0..reps {
+            let bs = rand_bits(rng, k);
+            let v = stack_of::<W>(&bs).into_compressed().unwrap_infallible();
+            rep.eval("C16");
+            let shown = show_words(&v);
+            let replay = || format!("bits.stack {:x} | new | ws {} | export | len | drain", w, show_bits(&bs));
+            match StackCoder::<W>::from_compressed(v) {
+                Ok(mut c) => {
+                    let l = c.len();
+                    let mut back: Vec<bool> = c.by_ref().map(|b| b.unwrap_infallible()).collect();
+                    back.reverse();
+                    if l != bs.len() || back != bs {
+                        rep.fail("C16", format!("{} => exported {} re-imported len {:x} bits {}", replay(), shown, l, show_bits(&back)));
+                    }
+                }
+                Err(_) => rep.fail("C16", format!("{} => exported {} rejected on re-import", replay(), shown)),
+            }
+        }
+    }
+}
+
+fn check_golomb<N>(n: u32, v: u128, rng: &mut Rng, rep: &mut Report)
+where
+    N: num_traits::Unsigned + num_traits::PrimInt + num_traits::WrappingAdd + num_traits::WrappingSub,
+{
+    rep.eval("C16");
+    let (p, s) = golomb_bits::<N>(from_u128::<N>(v));
+    let exp = ref_codeword(n, v);
+    let mut srev = s.clone();
+    srev.reverse();
+    if p != exp || srev != exp {
+        rep.fail("C16", format!("bits.golomb {:x} {:x} => {} {} expected codeword {}", n, v, show_bits(&p), show_bits(&s), show_bits(&exp)));
+        return;
+    }
+    // prefix form: decode from a bit iterator followed by arbitrary trailing bits
+    let trailing = rand_bits(rng, (rng.0 % 5) as usize);
+    let mut src = p.clone();
+    src.extend(trailing.iter());
+    let (r, left) = golomb_decode::<N>(&src);
+    if r != hex(v) || left != trailing.len() {
+        rep.fail("C16", format!("bits.golombdec {:x} {} => {} with {} bits left, expected {:x} with {} left", n, show_bits(&src), r, left, v, trailing.len()));
+    }
+    // suffix form on a stack with bits below; the bits below must survive
+    let below = rand_bits(rng, (rng.0 % 11) as usize);
+    let mut c = stack_of::<u8>(&below);
+    c.encode_symbol(from_u128::<N>(v), ExpGolomb::<N>::new()).unwrap();
+    let got = show_sym(c.decode_symbol(ExpGolomb::<N>::new()));
+    let mut rest: Vec<bool> = c.by_ref().map(|b| b.unwrap_infallible()).collect();
+    rest.reverse();
+    if got != hex(v) || rest != below {
+        rep.fail("C16", format!("bits.stack 8 | new | ws {} | eg {:x} {:x} | dg {:x} | drain => {} / {}", show_bits(&below), n, v, n, got, show_bits(&rest)));
+    }
+    // prefix form through a queue
+    let mut q = queue_of::<u16>(&below);
+    q.encode_symbol(from_u128::<N>(v), ExpGolomb::<N>::new()).unwrap();
+    for &b in &trailing {
+        q.write_bit(b).unwrap_infallible();
+    }
+    let mut d = q.into_decoder().unwrap_infallible();
+    for &b in &below {
+        if d.read_bit().unwrap_infallible() != Some(b) {
+            rep.fail("C16", format!("bits.queue 10 | new | ws {} | eg {:x} {:x} => leading bits differ", show_bits(&below), n, v));
+            return;
+        }
+    }
+    let got = show_sym(d.decode_symbol(ExpGolomb::<N>::new()));
+    let after: Vec<bool> = d.by_ref().map(|b| b.unwrap_infallible()).take(trailing.len()).collect();
+    if got != hex(v) || after != trailing {
+        rep.fail("C16", format!("bits.queue 10 | new | ws {} | eg {:x} {:x} | ws {} | todec … dg => {} then {}", show_bits(&below), n, v, show_bits(&trailing), got, show_bits(&after)));
+    }
+}
+
+/// every bit string that is not a codeword prefix-extension must be rejected, every accepted
+/// one must re-encode to the consumed bits
+fn check_golomb_decode<N>(n: u32, bs: &[bool], rep: &mut Report)
+where
+    N: num_traits::Unsigned + num_traits::PrimInt + num_traits::WrappingAdd + num_traits::WrappingSub,
+{
+    rep.eval("C16");
+    let (r, left) = golomb_decode::<N>(bs);
+    let consumed = bs.len() - left;
+    match parse_hex(&r) {
+        Some(v) => {
+            let cw = ref_codeword(n, v);
+            if !fits(n as u128, v) || cw[..] != bs[..consumed] {
+                rep.fail("C16", format!("bits.golombdec {:x} {} => accepted as {:x} but that symbol's codeword is {}", n, show_bits(bs), v, show_bits(&cw)));
+            }
+            rep.count("C16.golombdec.accepted");
+        }
+        None => {
+            // rejected: no codeword of an n-bit symbol may be a prefix of bs
+            let zeros = bs.iter().take_while(|&&b| !b).count();
+            let complete = zeros < bs.len() && bs.len() >= 2 * zeros + 1;
+            if complete && zeros <= n as usize {
+                // k zeros, k+1 digits: the value is v+1 in [2^k, 2^(k+1)); valid iff v+1 <= 2^n
+                let digits = &bs[zeros..2 * zeros + 1];
+                let is_pow = digits[1..].iter().all(|&b| !b);
+                if zeros < n as usize || is_pow {
+                    rep.fail("C16", format!("bits.golombdec {:x} {} => rejected a valid codeword", n, show_bits(bs)));
+                }
+            }
+            rep.count("C16.golombdec.rejected");
+        }
+    }
+}
+
+pub fn oracle(rng: &mut Rng, tier: &str, rep: &mut Report) {
+    let thorough = tier == "thorough";
+    let iters = if thorough { 20000 } else { 1000 };
+    oracle_stack::<u8>(rng, iters, rep);
+    oracle_stack::<u16>(rng, iters, rep);
+    oracle_stack::<u32>(rng, iters, rep);
+    oracle_stack::<u64>(rng, iters, rep);
+    oracle_queue::<u8>(rng, iters, rep);
+    oracle_queue::<u16>(rng, iters, rep);
+    oracle_queue::<u32>(rng, iters, rep);
+    oracle_queue::<u64>(rng, iters, rep);
+    oracle_export_exhaustive::<u8>(if thorough { 18 } else { 13 }, rep);
+    oracle_export_exhaustive::<u16>(if thorough { 17 } else { 10 }, rep);
+    oracle_export_random::<u8>(rng, 20, rep);
+    oracle_export_random::<u16>(rng, 20, rep);
+    oracle_export_random::<u32>(rng, 20, rep);
+    oracle_export_random::<u64>(rng, 20, rep);
+    // Exp-Golomb: all u8 and u16 symbols, boundary and random symbols of the wide types
+    for v in 0..=0xffu128 {
+        check_golomb::<u8>(8, v, rng, rep);
+    }
+    for v in 0..=0xffffu128 {
+        check_golomb::<u16>(16, v, rng, rep);
+    }
+    for n in [32u32, 64, 128] {
+        let mut vs = boundary_syms(n);
+        for _ in 0..(if thorough { 20000 } else { 1000 }) {
+            vs.push(gen_sym(rng, n));
+        }
+        for v in vs {
+            if v == max_of(n) {
+                rep.count(&format!("C16.golomb.max.N{}", n));
+            }
+            with_n!(n, N => check_golomb::<N>(n, v, rng, rep));
+        }
+    }
+    // invalid codewords: every bit string up to length 2N+2 at u8, directed ones elsewhere
+    for l in 0..=(if thorough { 19 } else { 15 }) {
+        for pat in 0..(1u64 << l) {
+            check_golomb_decode::<u8>(8, &pat_bits(l, pat), rep);
+        }
+    }
+    for n in [16u32, 32, 64, 128] {
+        let mut lines = Vec::new();
+        gen_golomb_dec(rng, n, &mut lines);
+        for line in lines {
+            let bs = parse_bits(line.split(' ').nth(2).unwrap()).unwrap();
+            with_n!(n, N => check_golomb_decode::<N>(n, &bs, rep));
+        }
+    }
+}
